@@ -255,33 +255,31 @@ Theorem C09_wind_dec_enc : forall c, w_wf c = true ->
 Proof. exact w_dec_enc. Qed.
 Print Assumptions C09_wind_dec_enc.
 
-(* the Memmap reader model presents exactly the encoded content of every well-formed file (one or more steps, time record
-   with or without the lstagger word) on a grid of two or more cells, PROVIDED the step count is small against the step
-   size: 12 * steps < body + 4 (the reader's step count never counts the 12-byte dummy records) *)
-Theorem C09_wind_reader_presents_content_partial : forall c, w_wf c = true -> w_steps c <> [] -> 2 <= w_nx c * w_ny c ->
-  12 * Z.of_nat (length (w_steps c)) < w_body_bytes c + 4 ->
+(* the Memmap reader model (as repaired by db74c5b and d3c85b3) presents exactly the encoded content of EVERY well-formed file
+   -- one or more steps, ANY number of steps, time record with or without the lstagger word -- on a grid of two or more cells *)
+Theorem C09_wind_reader_presents_content : forall c, w_wf c = true -> w_steps c <> [] -> 2 <= w_nx c * w_ny c ->
   w_mm_read (w_ny c) (w_nx c) (w_enc c) (4 * Z.of_nat (length (w_enc c))) = WOk (w_view_of c).
 Proof. exact w_mm_read_enc. Qed.
-Print Assumptions C09_wind_reader_presents_content_partial.
+Print Assumptions C09_wind_reader_presents_content.
 
-(* refuted outside that domain, witnesses replayed on the library:
-   - a valid FIVE-step file on a 2x1 grid with one layer (12 * 5 >= 52 + 4) raises: new finding wind-long-file-step-miscount
-     (region 19);
-   - a valid one-step file on a 1x1 grid never returns (the U/V records are as long as the dummy record, the layer-counting
-     loop runs into the end of the file): finding wind-1x1 (region 12) *)
+(* what remains refuted: 1x1 grids, where the U/V records are as long as the dummy record and the layer-counting loop cannot tell
+   them apart -- a valid one-step file raises (it never returned before db74c5b), a valid two-step file is presented with a
+   wrong layer count or raises. Replays on the library: finding wind-1x1 (region 12). (The five-step 2x1x1 file of the former
+   finding wind-long-file-step-miscount is read as its content: corpus case.) *)
 Definition C09_wind_long : wind :=
   {| w_nx := 2; w_ny := 1; w_nz := 1; w_stag := Some 0; w_dummy := 0;
      w_steps := map (fun h => WStep h 4001 [([1065353216; 1073741824], [1077936128; 1082130432])]) [0; 1120403456; 1128792064; 1133903872; 1137180672] |}.
-Definition C09_wind_1x1 : wind :=
+Definition C09_wind_1x1 (steps : list word) : wind :=
   {| w_nx := 1; w_ny := 1; w_nz := 2; w_stag := Some 0; w_dummy := 0;
-     w_steps := [WStep 0 4001 [([1065353216], [1077936128]); ([1073741824], [1082130432])]] |}.
-Theorem C09_wind_reader_refuted :
-  (w_wf C09_wind_long = true /\ length (w_steps C09_wind_long) = 5%nat /\
-   w_mm_read 1 2 (w_enc C09_wind_long) (4 * Z.of_nat (length (w_enc C09_wind_long))) = WErr) /\
-  (w_wf C09_wind_1x1 = true /\
-   w_mm_read 1 1 (w_enc C09_wind_1x1) (4 * Z.of_nat (length (w_enc C09_wind_1x1))) = WHang).
-Proof. vm_compute. repeat split; reflexivity. Qed.
-Print Assumptions C09_wind_reader_refuted.
+     w_steps := map (fun h => WStep h 4001 [([1065353216], [1077936128]); ([1073741824], [1082130432])]) steps |}.
+Theorem C09_wind_1x1_refuted :
+  (w_wf (C09_wind_1x1 [0]) = true /\
+   w_mm_read 1 1 (w_enc (C09_wind_1x1 [0])) (4 * Z.of_nat (length (w_enc (C09_wind_1x1 [0])))) = WErr) /\
+  (w_wf (C09_wind_1x1 [0; 1120403456]) = true /\
+   w_mm_read 1 1 (w_enc (C09_wind_1x1 [0; 1120403456])) (4 * Z.of_nat (length (w_enc (C09_wind_1x1 [0; 1120403456]))))
+   <> WOk (w_view_of (C09_wind_1x1 [0; 1120403456]))).
+Proof. vm_compute. repeat split; try reflexivity. discriminate. Qed.
+Print Assumptions C09_wind_1x1_refuted.
 
 Definition C09_wind_example : wind :=
   {| w_nx := 2; w_ny := 1; w_nz := 2; w_stag := Some 1; w_dummy := 0;
@@ -289,6 +287,6 @@ Definition C09_wind_example : wind :=
                  WStep 1128792064 4001 [([11; 12], [13; 14]); ([15; 16], [17; 18])]] |}.
 Example C09_wind_hyp_inhabited :
   w_wf C09_wind_example = true /\ w_steps C09_wind_example <> [] /\ 2 <= w_nx C09_wind_example * w_ny C09_wind_example /\
-  12 * Z.of_nat (length (w_steps C09_wind_example)) < w_body_bytes C09_wind_example + 4 /\
-  length (w_enc C09_wind_example) = 48%nat.
+  length (w_enc C09_wind_example) = 48%nat /\
+  w_mm_read 1 2 (w_enc C09_wind_long) (4 * Z.of_nat (length (w_enc C09_wind_long))) = WOk (w_view_of C09_wind_long).
 Proof. vm_compute. repeat split; try reflexivity; discriminate. Qed.
